@@ -11,17 +11,19 @@ PID = "C15"
 LEVEL = "other"
 EXPLANATION = (
     "Static analysis of the types crate's hand-written serde code. Decided: R1 the decision tables extracted from "
-    "ErrorCode::code (variant -> constant) and From<i32> for ErrorCode (constant -> variant) are mutual inverses on every "
-    "unit variant, ServerError(c).code() = c and from(c) for any other c is ServerError(c); Serialize/Deserialize for "
-    "ErrorCode go through these two functions; R2 in Serialize for Response every path to SerializeStruct::end "
-    "serialises `id` exactly once, exactly one of `result`/`error`, and `jsonrpc` at most once and only on the Some arm; "
-    "R3 the member names recognised by the response field visitor equal the names the serializer emits "
-    "({jsonrpc,result,error,id}); R4 each of the four member slots in visit_map is assigned only under a failed "
-    "is_some() test (duplicate members rejected); R5 the final acceptance decision of visit_map, extracted as a table "
-    "over (jsonrpc, result, error) in {absent,present}^3 with id present, accepts exactly the rows with exactly one of "
-    "result/error and carries that member, and a missing id is rejected before it; R6 no string assembled with format! is "
-    "ever taken as wire JSON (RawValue::from_string, parse into RawValue, connection sink) in types/core/server. "
-    "NOT decided: value round trips of ids/payloads (serde_json, untagged enums)."
+    'ErrorCode::code (variant -> constant) and From<i32> for ErrorCode (constant -> variant) are mutual inverses on '
+    'every unit variant, ServerError(c).code() = c and from(c) for any other c is ServerError(c); '
+    'Serialize/Deserialize for ErrorCode go through these two functions; R2 in Serialize for Response every path to '
+    'SerializeStruct::end serialises `id` exactly once, exactly one of `result`/`error`, and `jsonrpc` at most once '
+    'and only on the Some arm; R3 the member names recognised by the response field visitor equal the names the '
+    'serializer emits ({jsonrpc,result,error,id}); R4 each of the four member slots in visit_map is assigned only '
+    'under a failed is_some() test (duplicate members rejected); R5 the final acceptance decision of visit_map, '
+    'extracted as a table over (jsonrpc, result, error) in {absent,present}^3 with id present, accepts exactly the '
+    'rows with exactly one of result/error and carries that member, and a missing id is rejected before it; R6 no '
+    'string assembled with format! is ever taken as wire JSON (RawValue::from_string, parse into RawValue, connection '
+    'sink) in types/core/server. R7 no &str/&[u8] deserialisation target in types/core (explicit calls and derive- '
+    'generated member reads; fixture control); R8 into_owned of Response/ErrorObject is field-wise identity. NOT '
+    'decided: value round trips of ids/payloads (serde_json, untagged enums).'
 )
 RULE_TEXT = "instances = table rows, serializer paths, field-name sets, guarded assignments; non-trivial = a table row or a path count"
 TRUSTED = ["rustc MIR", "serde's SerializeStruct / MapAccess contracts"]
